@@ -181,12 +181,17 @@ def eligible(level, at_level=1, all_levels=False, only_level=None):
 
 
 def select(spec, test_pats=None, module_pats=None, layer_pats=None, at_level=1, all_levels=False,
-           only_level=None, unit=False, non_unit=False):
+           only_level=None, unit=False, non_unit=False, packages=None):
     """the tests a run with these options must execute: dict layer_name -> [test records] (discovery order)"""
     res = {}
     if unit and non_unit:
         unit = non_unit = False
     for rec in resolve(spec):
+        if packages:
+            # --package: only modules inside one of the named packages are searched
+            dotted = ['.'.join(spec['mp'] + part for part in p.split('.')) for p in packages]
+            if not any(rec['module'].startswith(d + '.') for d in dotted):
+                continue
         if module_pats and not accepts(module_pats, rec['module']):
             continue
         if not eligible(rec['level'], at_level, all_levels, only_level):
